@@ -41,6 +41,10 @@ def run(model, rep, tier):
     r16_exception_values_classified_by_base(ctx, rep)
     from . import robust
     robust.argument_roles_agree(ctx, rep, 'C04.R17')
+    # 'it is recorded': a layer failure recorded by the final tear-down still counts -- the verdict is
+    # computed after everything that can record (shared with C02.R1)
+    from . import c02 as _c02
+    _c02.r1_verdict_expression(ctx, rep, R='C04.R18')
     r12_nullable_results(ctx, rep)
     r13_user_exceptions_not_hashed(ctx, rep)
     r14_no_user_text_as_format_string(ctx, rep)
